@@ -118,7 +118,7 @@ def hold(job, rng, home):
     plan = {"cmds": cmds}
     if rng.random() < 0.6:
         plan["stop"] = {"iter": rng.randint(2, max(2, n_iters)), "mode": "REQUEST_NOW", "restart": True, "sync": True}
-    res = driver.execute(w.flow_text(), outcome, eseed, os.path.join(home, "main"), plan=plan)
+    res = driver.execute(w.flow_text(), outcome, eseed, os.path.join(home, "main"), plan=plan, policy=job.get("policy"))
     return _pack(job["seed"], w, res, {"allcomplete": False, "stopreq": True, "holds": True}, {"plan": plan})
 
 def stopcmds(job, rng, home):
@@ -211,14 +211,39 @@ def cmds(job, rng, home):
             cl.append((it, "set", {"tasks": ids, "flow": rng.choice([[], [], ["new"]]), "outputs": outs}))
         elif k == "remove":
             cl.append((it, "remove_tasks", {"tasks": some_ids(rng.randint(1, 2)), "flow": rng.choice([[], [], ["1"]])}))
+        elif k == "reload_edit" and len(w.tasks) > 2:
+            import copy
+            w2 = copy.deepcopy(w)
+            fut = sorted({l["rhs"] for l in w2.lines if any(a["off"] > 0 for a in gen.atoms_of(l["lhs"]))})
+            r = rng.choice(fut) if fut and rng.random() < 0.8 else rng.choice(w2.tasks)
+            w2.tasks = [t for t in w2.tasks if t != r]
+            w2.lines = [l for l in w2.lines if l["rhs"] != r and not any(a["t"] == r for a in gen.atoms_of(l["lhs"]))]
+            for t in w2.tasks:
+                if not any((l["rhs"] == t) or any(a["t"] == t and a["off"] == 0 for a in gen.atoms_of(l["lhs"])) for l in w2.lines):
+                    w2.lines.append({"rec": 0, "lhs": None, "rhs": t, "suicide": False})
+            w2.seqtasks.discard(r)
+            w2.succ_opt.discard(r)
+            for q in w2.queues:
+                q["members"] = [m for m in q["members"] if m != r] or [w2.tasks[0]]
+            cl.append((it, "__rewrite_flow__", {"text": w2.flow_text(), "removed": r}))
+            cl.append((it, "reload_workflow", {}))
         else:
             cl.append((it, "reload_workflow", {}))
     plan = {"cmds": cl}
+    if job.get("restart"):
+        # commands before and after a stop + restart
+        plan["stop"] = {"iter": rng.randint(2, max(2, n_iters)), "mode": "REQUEST_NOW", "restart": True, "sync": True}
+        for _ in range(2):
+            cl.append((plan["stop"]["iter"] + rng.randint(1, 6), "force_trigger_tasks",
+                       {"tasks": some_ids(1), "flow": ["new"]}))
+            cl.insert(0, (max(1, plan["stop"]["iter"] - rng.randint(1, 6)), "set",
+                          {"tasks": some_ids(1), "flow": ["new"], "outputs": None}))
     pol = dict(job.get("policy") or {})
     if job.get("dups"):
         pol.update(p_dup=0.3, p_redeliver=0.4)
         plan["react_retry_trigger"] = True
     res = driver.execute(w.flow_text(), outcome, eseed, os.path.join(home, "main"), plan=plan, policy=pol)
-    return _pack(job["seed"], w, res, {"manual": True, "allcomplete": False, "stopreq": True}, {"plan": plan})
+    return _pack(job["seed"], w, res, {"manual": True, "allcomplete": False, "stopreq": job.get("stopreq", True)},
+                 {"plan": plan})
 
 SCENARIOS["cmds"] = cmds
